@@ -128,6 +128,25 @@ def float_sources(t) -> List[str]:
                 import re as _re
                 if _re.search(r'%[-+ #0]*(\*|\d+)?(\.(\*|\d+))?[eEfFgG]', x[2][1]):
                     out.append('printf-style %s formatting (converts a Decimal to a binary double first)' % _re.search(r'%[^%]*?[eEfFgG]', x[2][1]).group(0))
+            # formatting with a precision / float presentation type writes fewer digits than the number has
+            spec_ = None
+            if x[:1] == ('call',) and len(x) >= 4 and x[2] == ('ref', 'builtin', 'format') and len(x[3]) == 2:
+                spec_ = x[3][1]
+            elif x[:1] == ('fmt',) and len(x) >= 3:
+                spec_ = x[2]
+            elif x[:1] == ('call',) and len(x) >= 4 and isinstance(x[2], tuple) and x[2][:1] == ('attr',) and x[2][2] == 'format' \
+                    and isinstance(x[2][1], tuple) and x[2][1][:1] == ('const',) and isinstance(x[2][1][1], str):
+                import re as _re
+                m_ = _re.search(r'\{[^{}]*:[^{}]*(\.\d+|[eEfFgG%])[^{}]*\}', x[2][1][1])
+                if m_:
+                    out.append('str.format with the precision / float format %s (digits beyond it are dropped)' % m_.group(0))
+            if spec_ is not None:
+                if isinstance(spec_, tuple) and spec_[:1] == ('const',) and isinstance(spec_[1], str):
+                    import re as _re
+                    if _re.search(r'\.\d+|[eEfFgGn%]', spec_[1]):
+                        out.append('format(..., %r): a precision / float presentation type keeps only that many digits' % spec_[1])
+                else:
+                    out.append('format(...) with a format specification that is not a constant')
             if x[:1] == ('binop',) and x[1] == '/':
                 l, r = x[2], x[3]
                 def pyint(y):
